@@ -1,8 +1,10 @@
 package c20
 
 import (
+	"crypto/cipher"
 	"crypto/x509"
 	"crypto/x509/pkix"
+	"encoding/hex"
 	"encoding/pem"
 	"fmt"
 	"math/big"
@@ -11,7 +13,9 @@ import (
 	"sync"
 	"time"
 
+	gcipher "github.com/emmansun/gmsm/cipher"
 	"github.com/emmansun/gmsm/sm2"
+	"github.com/emmansun/gmsm/sm4"
 	"github.com/emmansun/gmsm/smx509"
 
 	"verif/engine"
@@ -273,6 +277,60 @@ func s28() scenario {
 			func() { in.outs[0] = verify(l2) },
 			func() { in.outs[1] = verify(l1) },
 			func() { in.outs[2] = verify(l2) + "/" + verify(l1) },
+		}
+		return in
+	}}
+}
+
+// ---- S29: the FIRST use of freshly constructed AEADs is made by the threads (S8/S12 seal once during set-up, which
+// would complete any lazily built table before the threads start): GCM (12-byte and 16-byte nonce, truncated tag) and
+// CCM over one block, Seal ‖ Open ‖ Seal. The ciphertexts to open come from separate objects built once per process.
+
+var s29Once sync.Once
+var s29Sealed [3][]byte
+
+func s29() scenario {
+	key := fixedScalar(90)[:16]
+	nonce := fixedScalar(91)[:12]
+	nonce16 := fixedScalar(92)[:16]
+	pt := engine.Pattern(5, 150)
+	aad := []byte("s29 header")
+	mk := func() (cipher.AEAD, cipher.AEAD, cipher.AEAD, cipher.AEAD) {
+		blk, err := sm4.NewCipher(key)
+		if err != nil {
+			panic(err)
+		}
+		g, e1 := cipher.NewGCM(blk)
+		g16, e2 := cipher.NewGCMWithNonceSize(blk, 16)
+		g12t, e3 := cipher.NewGCMWithTagSize(blk, 12)
+		ccm, e4 := gcipher.NewCCM(blk)
+		if e1 != nil || e2 != nil || e3 != nil || e4 != nil {
+			panic(fmt.Sprint(e1, e2, e3, e4))
+		}
+		return g, g16, g12t, ccm
+	}
+	return scenario{name: "S29-aead-first-use-by-threads", setup: func() *inst {
+		s29Once.Do(func() {
+			g, g16, _, ccm := mk()
+			s29Sealed[0] = g.Seal(nil, nonce, pt, aad)
+			s29Sealed[1] = g16.Seal(nil, nonce16, pt[:77], aad)
+			s29Sealed[2] = ccm.Seal(nil, nonce, pt[:40], aad)
+		})
+		g, g16, g12t, ccm := mk()
+		in := &inst{outs: make([]string, 3)}
+		in.threads = []func(){
+			func() {
+				in.outs[0] = hex.EncodeToString(g.Seal(nil, nonce, pt[:99], aad)) + "/" + hex.EncodeToString(g12t.Seal(nil, nonce, pt[:33], nil))
+			},
+			func() {
+				o1, e1 := g.Open(nil, nonce, s29Sealed[0], aad)
+				o2, e2 := g16.Open(nil, nonce16, s29Sealed[1], aad)
+				o3, e3 := ccm.Open(nil, nonce, s29Sealed[2], aad)
+				in.outs[1] = hx(o1, e1) + "/" + hx(o2, e2) + "/" + hx(o3, e3)
+			},
+			func() {
+				in.outs[2] = hex.EncodeToString(g16.Seal(nil, nonce16, pt[:130], aad)) + "/" + hex.EncodeToString(ccm.Seal(nil, nonce, pt[:17], aad)) + "/" + hex.EncodeToString(g.Seal(nil, nonce, pt[:5], nil))
+			},
 		}
 		return in
 	}}
